@@ -944,3 +944,544 @@ Lemma imerge_spec (rep : list A -> A) size (h : list (nat * list A)) : 1 <= size
   chunked size (imerge rep size h) (map (fun b => rep (snd b)) h).
 Proof. intros Hs. apply ibatchover_spec. exact Hs. Qed.
 End Merge.
+
+
+(* ------------------------------------------------------------------ round 2: new combinators *)
+Section R2.
+Variable A : Type.
+Notation batch := (nat * list A)%type.
+Notation hist := (list (nat * list A)).
+
+Lemma Permutation_concat {X} (a b : list (list X)) : Permutation a b -> Permutation (concat a) (concat b).
+Proof.
+  induction 1 as [|x a b P IH|x y a|a b c P1 IH1 P2 IH2]; simpl.
+  - constructor.
+  - apply Permutation_app_head. exact IH.
+  - rewrite !app_assoc. apply Permutation_app_tail. apply Permutation_app_comm.
+  - eapply perm_trans; eassumption.
+Qed.
+
+(** Split: whatever consumer receives each batch, every batch is received exactly once *)
+Lemma map_ext_notin {X} (f g : nat -> list X) j l : ~ In j l -> (forall i, i <> j -> f i = g i) -> map f l = map g l.
+Proof. intros N E. apply map_ext_in. intros i I. apply E. intros ->. contradiction. Qed.
+Lemma concat_insert {X} (b : X) j (f : nat -> list X) l : NoDup l -> In j l ->
+  Permutation (concat (map (fun i => (if Nat.eqb j i then [b] else []) ++ f i) l)) (b :: concat (map f l)).
+Proof.
+  induction l as [|i l IH]; intros ND I; [contradiction|]. inversion ND as [|? ? Ni ND']; subst. simpl.
+  destruct (Nat.eqb_spec j i) as [->|Ne].
+  - simpl. rewrite (map_ext_notin (fun i0 => (if Nat.eqb i i0 then [b] else []) ++ f i0) f i l Ni); [reflexivity|].
+    intros k Hk. destruct (Nat.eqb_spec i k); [congruence|reflexivity].
+  - destruct I as [->|I]; [congruence|]. simpl. rewrite (IH ND' I). symmetry. apply Permutation_middle.
+Qed.
+Lemma split_recv_cons (b : batch) h j a i :
+  split_recv (b :: h) (j :: a) i = (if Nat.eqb j i then [b] else []) ++ split_recv h a i.
+Proof. unfold split_recv. simpl. destruct (Nat.eqb j i); reflexivity. Qed.
+Lemma split_spec n (h : hist) : forall assign, length assign = length h -> Forall (fun j => j < n) assign ->
+  Permutation (concat (map (split_recv h assign) (seq 0 n))) h.
+Proof.
+  induction h as [|b h IH]; intros assign L F.
+  - destruct assign; [|discriminate]. unfold split_recv. simpl. clear. induction (seq 0 n) as [|i l IHl]; simpl; [constructor|exact IHl].
+  - destruct assign as [|j a]; [discriminate|]. inversion F as [|? ? Hj F']; subst. simpl in L.
+    rewrite (map_ext _ _ (split_recv_cons b h j a)).
+    rewrite concat_insert; [|apply seq_NoDup|apply in_seq; lia]. constructor. apply IH; [lia|exact F'].
+Qed.
+Lemma concat_flatten_map (g : nat -> hist) l :
+  concat (map (fun i => concat (map snd (g i))) l) = concat (map snd (concat (map g l))).
+Proof. induction l as [|i l IHl]; simpl; [reflexivity|]. rewrite map_app, concat_app, IHl. reflexivity. Qed.
+Lemma split_records n (h : hist) assign : length assign = length h -> Forall (fun j => j < n) assign ->
+  Permutation (concat (map (fun i => flatten (split_recv h assign i)) (seq 0 n))) (flatten h).
+Proof.
+  intros L F. pose proof (split_spec n h assign L F) as P. unfold flatten.
+  rewrite (concat_flatten_map (split_recv h assign) (seq 0 n)).
+  apply Permutation_concat. apply Permutation_map. exact P.
+Qed.
+
+(** Load / CompleteFileIterator after SortBatches: all the records in input order, as one batch 0 *)
+Lemma completefile_spec (bs : list (list A)) (h : hist) : Permutation h (numbered_from 0 bs) ->
+  load (sortb h) = concat bs /\
+  completefile (sortb h) = match concat bs with [] => [] | l => [(0, l)] end.
+Proof.
+  intros P. unfold completefile, load. rewrite (sortb_spec A bs h P), flatten_numbered. split; reflexivity.
+Qed.
+
+(** conditional worker pool: the worker pool theorem for the worker "f where c holds, nothing elsewhere" *)
+Lemma cond_worker_sorted (c : A -> bool) (f : A -> list A) (bs : list (list A)) (h e : hist) :
+  Permutation h (numbered_from 0 bs) -> Permutation e (wmap (cond_worker c f) h) ->
+  sortb e = numbered_from 0 (map (flat_map (cond_worker c f)) bs) /\
+  flatten (sortb e) = flat_map f (filter c (concat bs)).
+Proof.
+  intros P Q. destruct (worker_pool_sorted A (cond_worker c f) bs h e P Q) as [S F]. split; [exact S|].
+  rewrite F. clear. induction (concat bs) as [|x l IH]; simpl; [reflexivity|]. unfold cond_worker at 1.
+  destruct (c x); simpl; rewrite IH; reflexivity.
+Qed.
+
+(** paired streams *)
+Lemma pairedwith_spec (mate : A -> A) (r : hist) :
+  map fst (pairedwith mate r) = map fst r /\ flatten (pairedwith mate r) = map mate (flatten r).
+Proof.
+  unfold pairedwith, flatten. split.
+  - rewrite map_map. reflexivity.
+  - induction r as [|b r IH]; simpl; [reflexivity|]. rewrite map_app, IH. reflexivity.
+Qed.
+Lemma filterand_paired_spec (mate : A -> A) (p : A -> bool) size (bs : list (list A)) (h e : hist) :
+  1 <= size -> Permutation h (numbered_from 0 bs) -> Permutation e (fmap (fun x => p x && p (mate x)) h) ->
+  chunked size (rebatch size e) (filter (fun x => p x && p (mate x)) (concat bs)) /\
+  rebatch size e = filterand_paired mate p size h /\
+  flatten (pairedwith mate (rebatch size e)) = map mate (filter (fun x => p x && p (mate x)) (concat bs)).
+Proof.
+  intros Hs P Q. destruct (filteron_spec A (fun x => p x && p (mate x)) size bs h e Hs P Q) as [C E].
+  split; [exact C|]. split; [exact E|]. rewrite (proj2 (pairedwith_spec mate _)). destruct C as [F _]. rewrite F. reflexivity.
+Qed.
+
+(** an order-sensitive consumer after Distribute (dispatcher path of obidistribute) *)
+Lemma combine_fst_snd {X Y} (l : list (X * Y)) : combine (map fst l) (map snd l) = l.
+Proof. induction l as [|[x y] l IH]; simpl; [reflexivity|]. rewrite IH. reflexivity. Qed.
+Lemma rebatch_chunked size size2 (r : hist) l : 1 <= size2 -> chunked size r l -> chunked size2 (rebatch size2 r) l.
+Proof.
+  intros Hs (F & N & _). rewrite <- F. unfold flatten.
+  apply (rebatch_spec A size2 (map snd r) r Hs). unfold numbered_from. rewrite map_length, <- N, combine_fst_snd. reflexivity.
+Qed.
+Lemma distribute_rebatch_spec code size size2 (bs : list (list A)) (h : hist) :
+  1 <= size -> 1 <= size2 -> Permutation h (numbered_from 0 bs) ->
+  let d := distribute_rebatch code size size2 h in
+  NoDup (map fst d) /\ (forall k, In k (map fst d) <-> In k (map code (concat bs))) /\
+  (forall k r, In (k, r) d -> chunked size2 r (filter (fun x => Nat.eqb (code x) k) (concat bs))).
+Proof.
+  intros Hs Hs2 P. destruct (distribute_spec A code size bs h Hs P) as (ND & K & C). unfold distribute_rebatch.
+  assert (E : map fst (map (fun kr : nat * hist => (fst kr, rebatch size2 (snd kr))) (distribute code size h)) = map fst (distribute code size h)).
+  { rewrite map_map. reflexivity. }
+  cbv zeta. rewrite E. split; [exact ND|]. split; [exact K|].
+  intros k r I. apply in_map_iff in I. destruct I as ([k' r'] & Eq & I). simpl in Eq. inversion Eq; subst.
+  apply (rebatch_chunked size size2 r' _ Hs2). apply C. exact I.
+Qed.
+End R2.
+
+
+(* ------------------------------------------------------------------ round 2: the close protocol as processes *)
+Lemma memb_In x l : memb x l = true <-> In x l.
+Proof.
+  unfold memb. rewrite existsb_exists. split.
+  - intros (y & I & E). apply Nat.eqb_eq in E. subst. exact I.
+  - intros I. exists x. split; [exact I|apply Nat.eqb_refl].
+Qed.
+Lemma nodupb_NoDup l : nodupb l = true -> NoDup l.
+Proof.
+  induction l as [|x l IH]; simpl; intros H; [constructor|].
+  apply andb_true_iff in H. destruct H as [H1 H2]. constructor; [|apply IH; exact H2].
+  intros I. apply memb_In in I. rewrite I in H1. discriminate.
+Qed.
+
+Lemma set_nth_app {X} (l1 : list X) p x l2 : set_nth (length l1) x (l1 ++ p :: l2) = l1 ++ x :: l2.
+Proof. induction l1 as [|y l1 IH]; simpl; [reflexivity|]. rewrite IH. reflexivity. Qed.
+
+Definition cat (f : proc -> list nat) (ps : list proc) : list nat := concat (map f ps).
+Lemma cat_split f l1 p l2 : cat f (l1 ++ p :: l2) = cat f l1 ++ f p ++ cat f l2.
+Proof. unfold cat. rewrite map_app, concat_app. simpl. reflexivity. Qed.
+Lemma cat_in f ps p x : In p ps -> In x (f p) -> In x (cat f ps).
+Proof. intros I J. unfold cat. apply in_concat. exists (f p). split; [apply in_map; exact I|exact J]. Qed.
+Lemma cat_nil f ps : (forall p, In p ps -> f p = []) -> cat f ps = [].
+Proof.
+  induction ps as [|p ps IH]; intros H; [reflexivity|]. unfold cat in *. simpl. rewrite (H p (or_introl eq_refl)).
+  simpl. apply IH. intros q I. apply H. right. exact I.
+Qed.
+
+Lemma cstep_inv s ps i c' : cstep (s, ps) i = Some c' ->
+  exists l1 p l2 a p' s', ps = l1 ++ p :: l2 /\ length l1 = i /\ head_act p = Some (a, p') /\
+                          gact_step s a = Next s' /\ c' = (s', l1 ++ p' :: l2).
+Proof.
+  unfold cstep. simpl. destruct (nth_error ps i) as [p|] eqn:N; [|discriminate].
+  destruct (head_act p) as [[a p']|] eqn:H; [|discriminate].
+  destruct (gact_step s a) as [| |s'] eqn:G; try discriminate. intros E. inversion E; subst c'.
+  destruct (nth_error_split ps i N) as (l1 & l2 & E1 & E2).
+  exists l1, p, l2, a, p', s'. subst ps. rewrite <- E2. rewrite set_nth_app. repeat split; auto.
+Qed.
+Lemma cstep_make s l1 p l2 a p' s' : head_act p = Some (a, p') -> gact_step s a = Next s' ->
+  cstep (s, l1 ++ p :: l2) (length l1) = Some (s', l1 ++ p' :: l2).
+Proof.
+  intros H G. unfold cstep. simpl. rewrite nth_error_app2 by lia. rewrite Nat.sub_diag. simpl.
+  rewrite H, G, set_nth_app. reflexivity.
+Qed.
+
+Section ProtoInv.
+Variable guard : nat -> nat.
+Variable iters : list nat.
+Variable P0 : list nat.
+
+Definition okproc (s : gstate) (p : proc) : Prop :=
+  match p with
+  | Producer pu ds => forall it, In it pu -> In it iters /\ In (guard it) ds
+  | Closer cs segs => (forall it, In it cs -> g_wg s (guard it) = 0) /\
+                      (forall g its it, In (g, its) segs -> In it its -> guard it = g)
+  | Consumer es => forall it, In it es -> In it iters
+  end.
+
+Record Inv (c : cfg) : Prop := mkInv {
+  i_wg : forall g, g_wg (fst c) g = count_occ Nat.eq_dec (cat proc_dones (snd c)) g;
+  i_ok : forall p, In p (snd c) -> okproc (fst c) p;
+  i_nodup : NoDup (cat proc_closes (snd c));
+  i_closed : forall it, g_closed (fst c) it = true <-> (In it iters /\ ~ In it (cat proc_closes (snd c)));
+  i_incl : forall it, In it (cat proc_closes (snd c)) -> In it iters;
+  i_zero : forall it, g_closed (fst c) it = true -> g_wg (fst c) (guard it) = 0;
+  i_push : forall it, g_pushed (fst c) it + count_occ Nat.eq_dec (cat proc_pushes (snd c)) it = count_occ Nat.eq_dec P0 it }.
+
+(** a registered producer keeps the iterator open *)
+Lemma push_not_closed c pu ds it : Inv c -> In (Producer pu ds) (snd c) -> In it pu -> g_closed (fst c) it = false.
+Proof.
+  intros I Hp Hi. destruct (g_closed (fst c) it) eqn:C; [|reflexivity]. exfalso.
+  pose proof (i_zero c I it C) as Z. rewrite (i_wg c I) in Z.
+  destruct (i_ok c I _ Hp it Hi) as [_ G].
+  assert (J : In (guard it) (cat proc_dones (snd c))) by (eapply cat_in; [exact Hp|exact G]).
+  apply (count_occ_In Nat.eq_dec) in J. lia.
+Qed.
+
+Lemma head_no_panic c p a p' : Inv c -> In p (snd c) -> head_act p = Some (a, p') -> gact_step (fst c) a <> Panic.
+Proof.
+  intros I Hp H. destruct p as [pu ds|cs segs|es]; simpl in H.
+  - destruct pu as [|it pu].
+    + destruct ds as [|g ds]; [discriminate|]. inversion H; subst. simpl.
+      assert (J : In g (cat proc_dones (snd c))) by (eapply cat_in; [exact Hp|simpl; auto]).
+      apply (count_occ_In Nat.eq_dec) in J. rewrite <- (i_wg c I) in J.
+      destruct (g_wg (fst c) g); [lia|discriminate].
+    + inversion H; subst. simpl. rewrite (push_not_closed c _ _ it I Hp (or_introl eq_refl)). discriminate.
+  - destruct cs as [|it cs].
+    + destruct segs as [|[g its] segs]; [discriminate|]. inversion H; subst. simpl. destruct (g_wg (fst c) g); discriminate.
+    + inversion H; subst. simpl. destruct (g_closed (fst c) it) eqn:C; [|discriminate]. exfalso.
+      apply (i_closed c I) in C. destruct C as [_ C]. apply C. eapply cat_in; [exact Hp|simpl; auto].
+  - destruct es as [|it es]; [discriminate|]. inversion H; subst. simpl. destruct (g_closed (fst c) it); discriminate.
+Qed.
+
+Lemma count_occ_mid (a b : list nat) x y :
+  count_occ Nat.eq_dec (a ++ (x :: nil) ++ b) y = (if Nat.eq_dec x y then 1 else 0) + count_occ Nat.eq_dec (a ++ b) y.
+Proof. rewrite !count_occ_app. simpl. destruct (Nat.eq_dec x y); lia. Qed.
+
+Lemma step_inv c i c' : Inv c -> cstep c i = Some c' -> Inv c' /\ S (cmeasure c') = cmeasure c.
+Proof.
+  destruct c as [s ps]. intros I St.
+  destruct (cstep_inv s ps i c' St) as (l1 & p & l2 & a & p' & s' & E & _ & H & G & E'). subst ps c'.
+  assert (Hp : In p (l1 ++ p :: l2)) by (apply in_or_app; right; left; reflexivity).
+  assert (Others : forall q, In q (l1 ++ p' :: l2) -> q = p' \/ In q (l1 ++ p :: l2)).
+  { intros q J. apply in_app_or in J. destruct J as [J|[J|J]]; [right; apply in_or_app; auto|left; auto|right; apply in_or_app; right; right; exact J]. }
+  pose proof (i_wg _ I) as Iwg. pose proof (i_ok _ I) as Iok. pose proof (i_nodup _ I) as Ind.
+  pose proof (i_closed _ I) as Icl. pose proof (i_incl _ I) as Iin. pose proof (i_zero _ I) as Iz. pose proof (i_push _ I) as Ipu.
+  simpl fst in *. simpl snd in *.
+  unfold cmeasure. simpl snd. rewrite !map_app, !list_sum_app. simpl map. simpl list_sum.
+  rewrite !cat_split in *.
+  destruct p as [pu ds|cs segs|es]; simpl in H.
+  - destruct pu as [|it pu].
+    + (* Done g *)
+      destruct ds as [|g ds]; [discriminate|]. inversion H; subst a p'. clear H. simpl in G.
+      destruct (g_wg s g) as [|w] eqn:W; [discriminate|]. inversion G; subst s'. clear G. split; [|simpl; lia].
+      constructor; cbn [fst snd g_wg g_closed g_pushed]; rewrite ?cat_split; simpl proc_dones in *; simpl proc_closes in *; simpl proc_pushes in *.
+      * intros g'. unfold upd. specialize (Iwg g'). rewrite !count_occ_app in Iwg. rewrite !count_occ_app.
+        cbn [count_occ] in Iwg.
+        destruct (Nat.eqb_spec g' g) as [->|N].
+        -- rewrite W in Iwg. destruct (Nat.eq_dec g g); [lia|congruence].
+        -- rewrite Iwg. destruct (Nat.eq_dec g g'); [congruence|lia].
+      * intros q J. destruct (Others q J) as [->|J'].
+        -- simpl. intros it [].
+        -- specialize (Iok q J'). destruct q as [pu' ds'|cs' segs'|es']; simpl in *; auto.
+           destruct Iok as [A B]. split; [|exact B]. intros it Hi. specialize (A it Hi). cbn [g_wg]. unfold upd.
+           destruct (Nat.eqb_spec (guard it) g) as [E|N]; [rewrite E, W in A; discriminate|exact A].
+      * exact Ind.
+      * exact Icl.
+      * exact Iin.
+      * intros it C. specialize (Iz it C). unfold upd. destruct (Nat.eqb_spec (guard it) g) as [E|N]; [rewrite E, W in Iz; discriminate|exact Iz].
+      * exact Ipu.
+    + (* Push it *)
+      inversion H; subst a p'. clear H. simpl in G.
+      destruct (g_closed s it) eqn:C; [discriminate|]. inversion G; subst s'. clear G. split; [|simpl; lia].
+      constructor; cbn [fst snd g_wg g_closed g_pushed]; rewrite ?cat_split; simpl proc_dones in *; simpl proc_closes in *; simpl proc_pushes in *.
+      * exact Iwg.
+      * intros q J. destruct (Others q J) as [->|J'].
+        -- specialize (Iok _ Hp). simpl in *. intros x Hx. apply Iok. right. exact Hx.
+        -- specialize (Iok q J'). destruct q; simpl in *; auto.
+      * exact Ind.
+      * exact Icl.
+      * exact Iin.
+      * exact Iz.
+      * intros x. specialize (Ipu x). unfold upd. rewrite !count_occ_app in Ipu. rewrite !count_occ_app.
+        cbn [count_occ] in Ipu.
+        destruct (Nat.eqb_spec x it) as [->|N].
+        -- destruct (Nat.eq_dec it it); [lia|congruence].
+        -- destruct (Nat.eq_dec it x); [congruence|lia].
+  - destruct cs as [|it cs].
+    + (* Wait g *)
+      destruct segs as [|[g its] segs]; [discriminate|]. inversion H; subst a p'. clear H. simpl in G.
+      destruct (g_wg s g) eqn:W; [|discriminate]. inversion G; subst s'. clear G.
+      split; [|simpl; rewrite !app_length; lia].
+      constructor; cbn [fst snd g_wg g_closed g_pushed]; rewrite ?cat_split; simpl proc_dones in *; simpl proc_closes in *; simpl proc_pushes in *.
+      * exact Iwg.
+      * intros q J. destruct (Others q J) as [->|J'].
+        -- specialize (Iok _ Hp). simpl in *. destruct Iok as [_ B]. split.
+           ++ intros x Hx. rewrite (B g its x (or_introl eq_refl) Hx). exact W.
+           ++ intros g' its' x Hs Hx. apply (B g' its' x); [right; exact Hs|exact Hx].
+        -- exact (Iok q J').
+      * exact Ind.
+      * exact Icl.
+      * exact Iin.
+      * exact Iz.
+      * exact Ipu.
+    + (* Close it *)
+      inversion H; subst a p'. clear H. simpl in G.
+      destruct (g_closed s it) eqn:C; [discriminate|]. inversion G; subst s'. clear G. split; [|simpl; lia].
+      simpl proc_closes in *. rewrite <- !app_comm_cons in *.
+      pose proof (NoDup_remove_1 _ _ _ Ind) as ND1. pose proof (NoDup_remove_2 _ _ _ Ind) as ND2.
+      constructor; cbn [fst snd g_wg g_closed g_pushed]; rewrite ?cat_split; simpl proc_dones in *; simpl proc_closes in *; simpl proc_pushes in *.
+      * exact Iwg.
+      * intros q J. destruct (Others q J) as [->|J'].
+        -- specialize (Iok _ Hp). simpl in *. destruct Iok as [A B]. split; [intros x Hx; apply A; right; exact Hx|exact B].
+        -- exact (Iok q J').
+      * exact ND1.
+      * intros x. unfold upd. destruct (Nat.eqb_spec x it) as [->|N].
+        -- split; [intros _|reflexivity]. split; [|exact ND2]. apply Iin. apply in_or_app. right. left. reflexivity.
+        -- rewrite Icl. split; intros [A B]; (split; [exact A|]); intros J; apply B.
+           ++ apply in_app_or in J. apply in_or_app. destruct J as [J|J]; [left; exact J|right; right; exact J].
+           ++ apply in_app_or in J. apply in_or_app. destruct J as [J|[J|J]]; [left; exact J|congruence|right; exact J].
+      * intros x J. apply Iin. apply in_app_or in J. apply in_or_app. destruct J as [J|J]; [left; exact J|right; right; exact J].
+      * intros x. unfold upd. destruct (Nat.eqb_spec x it) as [->|N]; [|apply Iz]. intros _.
+        specialize (Iok _ Hp). simpl in Iok. apply (proj1 Iok). left. reflexivity.
+      * exact Ipu.
+  - (* End it *)
+    destruct es as [|it es]; [discriminate|]. inversion H; subst a p'. clear H. simpl in G.
+    destruct (g_closed s it) eqn:C; [|discriminate]. inversion G; subst s'. clear G. split; [|simpl; lia].
+    constructor; cbn [fst snd g_wg g_closed g_pushed]; rewrite ?cat_split; simpl proc_dones in *; simpl proc_closes in *; simpl proc_pushes in *; auto.
+    intros q J. destruct (Others q J) as [->|J']; [|exact (Iok q J')].
+    specialize (Iok _ Hp). simpl in *. intros x Hx. apply Iok. right. exact Hx.
+Qed.
+
+Lemma run_inv ls : forall c c', Inv c -> crun c ls = Some c' -> Inv c' /\ length ls + cmeasure c' = cmeasure c.
+Proof.
+  induction ls as [|i ls IH]; simpl; intros c c' I R.
+  - inversion R; subst. split; [exact I|reflexivity].
+  - destruct (cstep c i) as [c1|] eqn:St; [|discriminate].
+    destruct (step_inv c i c1 I St) as [I1 M1]. destruct (IH c1 c' I1 R) as [I2 M2]. split; [exact I2|lia].
+Qed.
+End ProtoInv.
+
+Lemma forallb_In {X} (f : X -> bool) l x : forallb f l = true -> In x l -> f x = true.
+Proof. intros H I. rewrite forallb_forall in H. apply H. exact I. Qed.
+
+Lemma init_inv guard iters procs : wf_cfg guard iters procs = true ->
+  Inv guard iters (cat proc_pushes procs) (cinit procs).
+Proof.
+  unfold wf_cfg. intros W. apply andb_true_iff in W. destruct W as [W1 W2].
+  apply andb_true_iff in W2. destruct W2 as [W2 W4]. apply andb_true_iff in W2. destruct W2 as [W2 W3].
+  fold (cat proc_closes procs) in *.
+  constructor; unfold cinit; cbn [fst snd g_wg g_closed g_pushed].
+  - intros g. reflexivity.
+  - intros p I. pose proof (forallb_In _ _ _ W1 I) as Wp. destruct p as [pu ds|cs segs|es]; simpl in *.
+    + intros it Hi. pose proof (forallb_In _ _ _ Wp Hi) as H. apply andb_true_iff in H. destruct H as [H1 H2].
+      split; apply memb_In; assumption.
+    + apply andb_true_iff in Wp. destruct Wp as [C S]. destruct cs; [|discriminate]. split; [intros it []|].
+      intros g its it Hs Hi. pose proof (forallb_In _ _ _ S Hs) as H. simpl in H.
+      pose proof (forallb_In _ _ _ H Hi) as H'. apply Nat.eqb_eq in H'. exact H'.
+    + intros it Hi. apply memb_In. exact (forallb_In _ _ _ Wp Hi).
+  - apply nodupb_NoDup. exact W2.
+  - intros it. split; [discriminate|]. intros [A B]. exfalso. apply B. apply memb_In. exact (forallb_In _ _ _ W3 A).
+  - intros it I. apply memb_In. exact (forallb_In _ _ _ W4 I).
+  - discriminate.
+  - intros it. reflexivity.
+Qed.
+
+Section ProtoMain.
+Variable guard : nat -> nat.
+Variable iters : list nat.
+Variable procs : list proc.
+Hypothesis WF : wf_cfg guard iters procs = true.
+
+Lemma reach_inv ls c : crun (cinit procs) ls = Some c ->
+  Inv guard iters (cat proc_pushes procs) c /\ length ls + cmeasure c = cmeasure (cinit procs).
+Proof. intros R. exact (run_inv guard iters _ ls _ _ (init_inv guard iters procs WF) R). Qed.
+
+Lemma proto_safety ls c : crun (cinit procs) ls = Some c -> can_panic c = false.
+Proof.
+  intros R. destruct (reach_inv ls c R) as [I _]. unfold can_panic.
+  destruct (existsb _ (snd c)) eqn:E; [|reflexivity]. exfalso.
+  apply existsb_exists in E. destruct E as (p & Hp & H).
+  destruct (head_act p) as [[a p']|] eqn:HA; [|discriminate].
+  pose proof (head_no_panic guard iters _ c p a p' I Hp HA) as NP.
+  destruct (gact_step (fst c) a); [apply NP; reflexivity|discriminate|discriminate].
+Qed.
+
+Lemma proto_closed_after_last_push ls c : crun (cinit procs) ls = Some c ->
+  forall it, g_closed (fst c) it = true ->
+    (forall p, In p (snd c) -> ~ In it (proc_pushes p)) /\ ~ In it (concat (map proc_closes (snd c))).
+Proof.
+  intros R it C. destruct (reach_inv ls c R) as [I _]. split.
+  - intros p Hp Hi. destruct p as [pu ds|cs segs|es]; simpl in Hi; try contradiction.
+    rewrite (push_not_closed guard iters _ c pu ds it I Hp Hi) in C. discriminate.
+  - apply (i_closed _ _ _ _ I) in C. exact (proj2 C).
+Qed.
+
+Lemma proto_bounded ls c : crun (cinit procs) ls = Some c -> length ls + cmeasure c = cmeasure (cinit procs).
+Proof. intros R. exact (proj2 (reach_inv ls c R)). Qed.
+
+Lemma finished_lists c : cfinished c = true ->
+  cat proc_dones (snd c) = [] /\ cat proc_closes (snd c) = [] /\ cat proc_pushes (snd c) = [].
+Proof.
+  unfold cfinished. intros F.
+  assert (H : forall p, In p (snd c) -> proc_dones p = [] /\ proc_closes p = [] /\ proc_pushes p = []).
+  { intros p I. pose proof (forallb_In _ _ _ F I) as Fp. unfold pfinished in Fp.
+    destruct p as [[|? ?] [|? ?]|[|? ?] [|[? ?] ?]|[|? ?]]; simpl in *; try discriminate; auto. }
+  repeat split; apply cat_nil; intros p I; apply (H p I).
+Qed.
+
+Lemma proto_final ls c : crun (cinit procs) ls = Some c -> cfinished c = true ->
+  (forall it, In it iters -> g_closed (fst c) it = true) /\
+  (forall it, g_pushed (fst c) it = count_occ Nat.eq_dec (concat (map proc_pushes procs)) it) /\
+  (forall g, g_wg (fst c) g = 0).
+Proof.
+  intros R F. destruct (reach_inv ls c R) as [I _]. destruct (finished_lists c F) as (D & C & P). repeat split.
+  - intros it Hi. apply (i_closed _ _ _ _ I). rewrite C. split; [exact Hi|intros []].
+  - intros it. pose proof (i_push _ _ _ _ I it) as H. rewrite P in H. simpl in H. unfold cat in H. lia.
+  - intros g. rewrite (i_wg _ _ _ _ I), D. reflexivity.
+Qed.
+
+(** progress: an unfinished producer can always move; when all producers are finished all counters are 0, so
+    an unfinished closer can move; when producers and closers are finished everything is closed, so an unfinished
+    consumer can move *)
+Definition unfinished_producer (p : proc) : bool := match p with Producer _ _ => negb (pfinished p) | _ => false end.
+Definition unfinished_closer (p : proc) : bool := match p with Closer _ _ => negb (pfinished p) | _ => false end.
+
+Lemma existsb_false_In {X} (f : X -> bool) l x : existsb f l = false -> In x l -> f x = false.
+Proof.
+  intros H I. destruct (f x) eqn:E; [|reflexivity]. assert (existsb f l = true) by (apply existsb_exists; exists x; auto). congruence.
+Qed.
+
+Lemma enabled_step c p a p' s' : In p (snd c) -> head_act p = Some (a, p') -> gact_step (fst c) a = Next s' ->
+  exists i c', cstep c i = Some c'.
+Proof.
+  intros Hp H G. destruct c as [s ps]. simpl in *. destruct (in_split _ _ Hp) as (l1 & l2 & E). subst ps.
+  exists (length l1), (s', l1 ++ p' :: l2). apply (cstep_make s l1 p l2 a p' s'); assumption.
+Qed.
+
+Lemma proto_progress ls c : crun (cinit procs) ls = Some c -> cfinished c = false -> exists i c', cstep c i = Some c'.
+Proof.
+  intros R F. destruct (reach_inv ls c R) as [I _].
+  destruct (existsb unfinished_producer (snd c)) eqn:EP.
+  { apply existsb_exists in EP. destruct EP as (p & Hp & U). destruct p as [pu ds|?|?]; try discriminate.
+    destruct (head_act (Producer pu ds)) as [[a p']|] eqn:H; [|unfold unfinished_producer, pfinished in U; rewrite H in U; discriminate].
+    pose proof (head_no_panic guard iters _ c _ a p' I Hp H) as NP.
+    destruct (gact_step (fst c) a) as [| |s'] eqn:G; [congruence| |exact (enabled_step c _ a p' s' Hp H G)].
+    exfalso. destruct pu as [|it pu]; simpl in H.
+    - destruct ds as [|g ds]; [discriminate|]. inversion H; subst. simpl in G. destruct (g_wg (fst c) g); discriminate.
+    - inversion H; subst. simpl in G. destruct (g_closed (fst c) it); discriminate. }
+  assert (D : cat proc_dones (snd c) = []).
+  { apply cat_nil. intros p Hp. pose proof (existsb_false_In _ _ _ EP Hp) as U.
+    destruct p as [pu ds|?|?]; try reflexivity. unfold unfinished_producer, pfinished in U. simpl in *.
+    destruct pu; [|discriminate]. destruct ds; [reflexivity|discriminate]. }
+  assert (Z : forall g, g_wg (fst c) g = 0) by (intros g; rewrite (i_wg _ _ _ _ I), D; reflexivity).
+  destruct (existsb unfinished_closer (snd c)) eqn:EC.
+  { apply existsb_exists in EC. destruct EC as (p & Hp & U). destruct p as [?|cs segs|?]; try discriminate.
+    destruct (head_act (Closer cs segs)) as [[a p']|] eqn:H; [|unfold unfinished_closer, pfinished in U; rewrite H in U; discriminate].
+    pose proof (head_no_panic guard iters _ c _ a p' I Hp H) as NP.
+    destruct (gact_step (fst c) a) as [| |s'] eqn:G; [congruence| |exact (enabled_step c _ a p' s' Hp H G)].
+    exfalso. destruct cs as [|it cs]; simpl in H.
+    - destruct segs as [|[g its] segs]; [discriminate|]. inversion H; subst. simpl in G. rewrite (Z g) in G. discriminate.
+    - inversion H; subst. simpl in G. destruct (g_closed (fst c) it); discriminate. }
+  assert (C : cat proc_closes (snd c) = []).
+  { apply cat_nil. intros p Hp. pose proof (existsb_false_In _ _ _ EC Hp) as U.
+    destruct p as [?|cs segs|?]; try reflexivity. unfold unfinished_closer, pfinished in U. simpl in *.
+    destruct cs; [|discriminate]. destruct segs as [|[? ?] ?]; [reflexivity|discriminate]. }
+  (* some process is unfinished: it is a consumer *)
+  unfold cfinished in F. assert (exists p, In p (snd c) /\ pfinished p = false) as (p & Hp & U).
+  { clear -F. induction (snd c) as [|q l IH]; [discriminate|]. simpl in F. destruct (pfinished q) eqn:Q.
+    - destruct (IH F) as (p & A & B). exists p. split; [right; exact A|exact B].
+    - exists q. split; [left; reflexivity|exact Q]. }
+  destruct p as [pu ds|cs segs|es].
+  - pose proof (existsb_false_In _ _ _ EP Hp) as U'. simpl in U'. rewrite U in U'. discriminate.
+  - pose proof (existsb_false_In _ _ _ EC Hp) as U'. simpl in U'. rewrite U in U'. discriminate.
+  - destruct es as [|it es]; [discriminate|].
+    assert (Cl : g_closed (fst c) it = true).
+    { apply (i_closed _ _ _ _ I). rewrite C. split; [|intros []]. exact (i_ok _ _ _ _ I _ Hp it (or_introl eq_refl)). }
+    apply (enabled_step c (Consumer (it :: es)) (GEnd it) (Consumer es) (fst c) Hp); [reflexivity|]. simpl. rewrite Cl. reflexivity.
+Qed.
+
+(** every maximal run (no goroutine can move any more) has closed every iterator — each exactly once and after
+    its last push by [proto_safety] / [proto_closed_after_last_push] — delivered every push, and released every counter *)
+Lemma proto_maximal_run ls c : crun (cinit procs) ls = Some c -> (forall i, cstep c i = None) ->
+  cfinished c = true /\
+  (forall it, In it iters -> g_closed (fst c) it = true) /\
+  (forall it, g_pushed (fst c) it = count_occ Nat.eq_dec (concat (map proc_pushes procs)) it) /\
+  (forall g, g_wg (fst c) g = 0).
+Proof.
+  intros R M. destruct (cfinished c) eqn:F.
+  - split; [reflexivity|]. exact (proto_final ls c R F).
+  - exfalso. destruct (proto_progress ls c R F) as (i & c' & St). rewrite M in St. discriminate.
+Qed.
+End ProtoMain.
+
+
+Lemma cat_app f a b : cat f (a ++ b) = cat f a ++ cat f b.
+Proof. unfold cat. rewrite map_app, concat_app. reflexivity. Qed.
+Lemma forallb_repeat {X} (f : X -> bool) x n : f x = true -> forallb f (repeat x n) = true.
+Proof. intros H. induction n; simpl; [reflexivity|]. rewrite H, IHn. reflexivity. Qed.
+Lemma forallb_map_all {X Y} (f : Y -> bool) (g : X -> Y) l : (forall x, f (g x) = true) -> forallb f (map g l) = true.
+Proof. intros H. induction l; simpl; [reflexivity|]. rewrite H, IHl. reflexivity. Qed.
+Lemma In_memb x l : In x l -> memb x l = true.
+Proof. apply memb_In. Qed.
+Lemma memb_false x l : ~ In x l -> memb x l = false.
+Proof. intros H. destruct (memb x l) eqn:E; [|reflexivity]. apply memb_In in E. contradiction. Qed.
+Lemma nodupb_seq a m : nodupb (seq a m) = true.
+Proof.
+  revert a. induction m as [|m IH]; intros a; simpl; [reflexivity|]. rewrite IH, andb_true_r.
+  rewrite memb_false; [reflexivity|]. rewrite in_seq. lia.
+Qed.
+Lemma forallb_In_all (f : nat -> bool) l : (forall x, In x l -> f x = true) -> forallb f l = true.
+Proof. intros H. apply forallb_forall. exact H. Qed.
+
+Lemma inst_std_wf pushes m : wf_cfg (fun x => x) [0] (inst_std pushes m) = true.
+Proof.
+  unfold wf_cfg, inst_std. apply andb_true_iff. split.
+  - rewrite !forallb_app. rewrite forallb_map_all, forallb_repeat; [reflexivity|reflexivity|].
+    intros n. simpl. apply forallb_repeat. reflexivity.
+  - fold (cat proc_closes (map (fun n => Producer (repeat 0 n) [0]) pushes ++ [Closer [] [(0, [0])]] ++ repeat (Consumer [0]) m)).
+    rewrite !cat_app.
+    rewrite (cat_nil proc_closes (map _ pushes)) by (intros p I; apply in_map_iff in I; destruct I as (n & <- & _); reflexivity).
+    rewrite (cat_nil proc_closes (repeat _ m)) by (intros p I; apply repeat_spec in I; subst; reflexivity).
+    reflexivity.
+Qed.
+Lemma inst_divideon_wf sched : wf_cfg (fun x => x) [0; 1] (inst_divideon sched) = true.
+Proof.
+  unfold wf_cfg, inst_divideon. apply andb_true_iff. split; [|reflexivity].
+  simpl. rewrite andb_true_r. apply forallb_map_all. intros [|]; reflexivity.
+Qed.
+Lemma inst_copytee_wf n : wf_cfg (fun _ => 0) [0; 1] (inst_copytee n) = true.
+Proof.
+  unfold wf_cfg, inst_copytee. apply andb_true_iff. split; [|reflexivity].
+  simpl. rewrite andb_true_r. induction n; simpl; [reflexivity|exact IHn].
+Qed.
+Lemma inst_distribute_wf m pushes : Forall (fun k => 1 <= k <= m) pushes ->
+  wf_cfg (fun _ => 0) (seq 1 m) (inst_distribute m pushes) = true.
+Proof.
+  intros F. unfold wf_cfg, inst_distribute. apply andb_true_iff. split.
+  - rewrite forallb_app. apply andb_true_iff. split.
+    + simpl. rewrite !andb_true_r. apply andb_true_iff. split.
+      * apply forallb_In_all. intros x I. rewrite Forall_forall in F. specialize (F x I).
+        rewrite In_memb; [reflexivity|]. apply in_seq. lia.
+      * apply forallb_In_all. intros x _. reflexivity.
+    + apply forallb_forall. intros p I. apply in_map_iff in I. destruct I as (k & <- & I).
+      simpl. rewrite In_memb; [reflexivity|exact I].
+  - fold (cat proc_closes ([Producer pushes [0]; Closer [] [(0, seq 1 m)]] ++ map (fun k => Consumer [k]) (seq 1 m))).
+    rewrite cat_app.
+    rewrite (cat_nil proc_closes (map _ (seq 1 m))) by (intros p I; apply in_map_iff in I; destruct I as (k & <- & _); reflexivity).
+    unfold cat. simpl. rewrite !app_nil_r. rewrite nodupb_seq. simpl.
+    apply andb_true_iff. split; apply forallb_In_all; intros x I; apply In_memb; exact I.
+Qed.
+
+(** a replayed trace is a run of the transition system *)
+Lemma replay_crun tr : forall c c', tr_replay c tr = Some c' -> crun c (tr_labels tr) = Some c'.
+Proof.
+  induction tr as [|e tr IH]; simpl; intros c c' R; [exact R|].
+  unfold tr_labels. simpl. fold (tr_labels tr). destruct (ev_act e) as [[i a]|]; [|simpl; apply IH; exact R].
+  simpl. destruct (nth_error (snd c) i) as [p|]; [|discriminate].
+  destruct (head_act p) as [[a' p']|]; [|discriminate]. destruct (gact_eqb a a'); [|discriminate].
+  destruct (cstep c i) as [c1|]; [|discriminate]. apply IH. exact R.
+Qed.
+Lemma trace_ok_sound tr : trace_ok tr = true ->
+  wf_cfg (tr_guard tr) (tr_iters tr) (tr_procs tr) = true /\ exists c, crun (cinit (tr_procs tr)) (tr_labels tr) = Some c /\ cfinished c = true.
+Proof.
+  unfold trace_ok. intros H. apply andb_true_iff in H. destruct H as [H R]. apply andb_true_iff in H. destruct H as [W _].
+  split; [exact W|]. destruct (tr_replay (cinit (tr_procs tr)) tr) as [c|] eqn:E; [|discriminate].
+  exists c. split; [apply replay_crun; exact E|exact R].
+Qed.
